@@ -27,4 +27,21 @@ CHECKS.update({
   "note": "Events are generated only for streams the peer can write to. Exceptions are bucketed by (type, innermost aioquic function). pylsqpack is environment.",
  },
 })
+CHECKS.update({
+ "C01": {
+  "technique": "model-based testing in a virtual-time network simulator: Hypothesis-generated application scripts x per-datagram fates against a per-stream byte-log model",
+  "text": "Two real QuicConnection endpoints run in a discrete-event simulator that owns the clock and the network. Hypothesis draws the configuration (reno/cubic, v1/v2, small windows), an application script (writes, FIN-only writes, resets, stop-sending, pings, key updates, CID changes, client rebinds; both directions, bidi and uni) and a fate per datagram (delay, drop, duplicate) for a bounded adversarial phase followed by a fair phase. After every event the delivered bytes must be a prefix of the written bytes, with at most one end marker and only after all bytes; at quiescence of the fair phase every byte, FIN and ping must have been delivered; no ConnectionTerminated may occur. Failing cases shrink to a replayable JSON case.",
+  "note": "Sampled schedules; liveness is bounded (20 virtual seconds / 6000 events: exhausting it is inconclusive). Trusted: the simulator's cycle (same as the asyncio adapter's), determinism pins (DRBG, deterministic key generation, QuicStream.__hash__).",
+ },
+ "C02": {
+  "technique": "differential testing against an independent RFC 9001/9369 implementation (Hypothesis) + exhaustive enumeration of 8-bit packet-number windows + bit-flip injection",
+  "text": "(a) For generated (suite, version, key generation, header, packet number, expected number, payload) tuples aioquic's protected packet must be opened bit-exactly by vlib/refquic.py, equal the reference's own protection, and reference-protected packets (also of the next key phase) must be accepted by aioquic; key derivation, Initial secrets and key updates equal the reference schedule; decode_packet_number equals a brute-force closest-candidate search on every (truncated, expected) pair of 8-bit windows at 30 bases including both ends of the number space, and on sampled 16/24/32-bit cases; every sampled single-bit alteration of a protected packet raises CryptoError. (b) live tamper tasks (when listed in the evidence) alter packets of real flights in front of a real endpoint.",
+  "note": "Trusted base: vlib/refquic.py (reproduces RFC 9001 App. A and RFC 9369 App. A vectors in its self-test). Packet sizes are kept within the helpers' 1500-byte limit (beyond is C04).",
+ },
+ "C17": {
+  "technique": "round-trip + differential testing against independent codecs (refquic / reftls), exhaustive boundary sets, Hypothesis-generated messages and mutated bytes",
+  "text": "Integers (all boundary neighbourhoods, out-of-range values must raise), ACK frames (every range set over [0,12) exhaustively + sparse random sets), long/short headers (both versions x types x CID lengths 0..20 x token lengths x pn lengths), Retry, Version Negotiation, packets built by QuicPacketBuilder, transport-parameter sets, and all TLS handshake messages are encoded by aioquic and compared byte-for-byte with independent encoders, decoded back (round trip), decoded by the independent decoders, and cross-decoded with reordered extensions. Arbitrary and mutated bytes must raise a documented parse error or decode to a value that re-encodes equivalently, independent of trailing bytes; extensions whose declared length is shorter than their content must be refused.",
+  "note": "Trusted: vlib/refquic.py, vlib/reftls.py (self-tests). Emission order of parameters/extensions is a parameter of the reference encoders.",
+ },
+})
 PENDING = {}
